@@ -152,6 +152,9 @@ def oracle(ctx, obs):
         good.append(o)
         # ---- wave vectors: k = dir * n * omega / c with the beam's own index (obtained directly from index_along)
         for name, b in (("signal", sig), ("pump", pump), ("idler", ib)):
+            if b["n"] != b["n_index_along"]:
+                ctx.violation("S5", f"{name}.refractive_index(own frequency) differs from index_along(own wavelength, own direction, own polarization): "
+                              f"{fl(b['n'])!r} vs {fl(b['n_index_along'])!r}", {"kind": "refractive_index", "beam": name}, d)
             want = kvec(b, b["n_index_along"], b["omega"])
             got = vfr(b["k"])
             scale = norm(want)
